@@ -7,7 +7,7 @@ use serde_json::Value;
 
 pub const META: PropMeta = PropMeta {
     level: "exploration",
-    rule: "Mp4Config x TrackConfig values in their documented domains (any brands/minor version, timescales >= 1, any u16 dimensions, SPS >= 4 bytes / any PPS, every AudioObjectType x SampleFreqIndex x ChannelConfig - the full 42x13x7 product is enumerated -, any bitrate, any three lowercase letters) x short generated sample histories, with configurations add_track must refuse interleaved (the accepted tracks must read back as ids 1..k); after mux -> demux every accessor is compared with the configuration (independent AVC profile table, exact integer arithmetic for the one-tick duration tolerance). Non-trivial = the configuration differs from every Default/From preset in >= 2 fields. Distinct = hash of the configuration + history.",
+    rule: "Mp4Config x TrackConfig values in their documented domains (any brands/minor version, timescales >= 1, any u16 dimensions, SPS >= 4 bytes / any PPS, every AudioObjectType x SampleFreqIndex x ChannelConfig - the full 42x13x7 product is enumerated -, any bitrate, any three lowercase letters, a track_type chosen independently of the media configuration) x short generated sample histories, with configurations add_track must refuse interleaved (the accepted tracks must read back as ids 1..k); after mux -> demux every accessor is compared with the configuration (independent AVC profile table, exact integer arithmetic for the one-tick duration tolerance). Non-trivial = the configuration differs from every Default/From preset in >= 2 fields. Distinct = hash of the configuration + history.",
     assumptions: &["AVC profile table written from ITU-T H.264 Annex A (66 +/- constraint_set1, 77, 88, 100)", "durations are kept below 2^50 movie ticks so that the reader's millisecond/microsecond conversion itself cannot overflow (that overflow is C06's subject)"],
 };
 
@@ -101,6 +101,15 @@ pub fn oracle(ctx: &mut Ctx, case: &MuxCase) -> Check {
             MKind::Aac { .. } => ("Audio", "aac", b"mp4a"),
             MKind::Ttxt => ("Subtitle", "ttxt", b"tx3g"),
         };
+        let want_type = match t.ttype {
+            1 => "Video",
+            2 => "Audio",
+            3 => "Subtitle",
+            _ => want_type,
+        };
+        if t.ttype != 0 {
+            ctx.count("track:track_type-chosen-independently-of-the-codec");
+        }
         match guarded("track_type", || tr.track_type())? {
             Ok(x) => ensure!(x.to_string() == want_type, "c14:track_type", "track {} type {} != {}", id, x, want_type),
             Err(e) => fail!("c14:track_type", "track {} track_type error {}", id, e),
@@ -221,7 +230,7 @@ pub fn run(ctx: &mut Ctx) {
                     minor: my as u32,
                     compat: vec![*b"mp42"],
                     timescale: 1000 + my as u32,
-                    tracks: vec![MTrack { kind: MKind::Aac { profile: p, freq_index: f, chan: c, bitrate }, timescale: 44100 - (my as u32 % 7), language: "eng".into(), preset: false }],
+                    tracks: vec![MTrack { kind: MKind::Aac { profile: p, freq_index: f, chan: c, bitrate }, timescale: 44100 - (my as u32 % 7), language: "eng".into(), preset: false, ttype: 0 }],
                     ops: vec![mux::MOp { track: 1, size: 5, dur: 1024, cts: 0, sync: true }, mux::MOp { track: 1, size: 6, dur: 1024, cts: 0, sync: true }],
                     sink: 0,
                 };
@@ -246,7 +255,7 @@ pub fn run(ctx: &mut Ctx) {
                 minor: 0,
                 compat: vec![],
                 timescale: 600,
-                tracks: vec![MTrack { kind: MKind::Avc { width: 1920, height: 1080, sps: vec![0x67, p, compat as u8, 0x28, 0xaa], pps: vec![0x68, 1] }, timescale: 90000, language: "fra".into(), preset: false }],
+                tracks: vec![MTrack { kind: MKind::Avc { width: 1920, height: 1080, sps: vec![0x67, p, compat as u8, 0x28, 0xaa], pps: vec![0x68, 1] }, timescale: 90000, language: "fra".into(), preset: false, ttype: 0 }],
                 ops: vec![mux::MOp { track: 1, size: 9, dur: 3000, cts: 0, sync: true }],
                 sink: 0,
             };
